@@ -47,6 +47,17 @@ def product_fields_roundtrip : Prop :=
     (∀ v ∈ vs, ∀ i t, v ≠ .vcons i t) →
     intoProductFields (fromProductFields (vs ++ [last])) = some (vs ++ [last])
 
+/-- **First-match semantics of `match`.** With the scrutinee evaluated, every earlier arm failing
+to match and the arm `(p, tail)` matching, the machine continues with `tail` under the bindings
+of `p` - whatever arms follow, overlapping or not. -/
+def match_takes_first : Prop :=
+  ∀ (st : State) (scrut : Val) (sv : SemVal) (env' : Env) (before rest : List (Pat × Comp))
+    (p : Pat) (tail : Comp),
+    evalV (valFuel scrut) st.env scrut = .ok sv →
+    (∀ q ∈ before, assign q.1 sv st.env = .fail) →
+    assign p sv st.env = .ok env' →
+    step (.cmatch scrut (before ++ (p, tail) :: rest)) st = .next tail { st with env := env' }
+
 end Statement
 
 end ZV.Props.C02
